@@ -114,6 +114,12 @@ func runC05(c *Ctx, r *Report, tier string) {
 			switch {
 			case t == "Option.Default(P0)":
 				origins = append(origins, "Option.Default")
+				// the default tags are the fallback exactly when the environment gives nothing: no key, or LookupEnv reports unset
+				noEnv := anyLit(litHas(false, "call:os.LookupEnv(call:(*Option).EnvKeyWithNamespace(P0))#1"), litIs("nonempty(call:(*Option).EnvKeyWithNamespace(P0))", false))
+				if !c.reqAt(cd, o, noEnv) {
+					okAll = false
+					origins = append(origins, "?Option.Default chosen although the variable is set (extra condition on the environment value)")
+				}
 			case strings.HasPrefix(t, "call:strings.Split(call:os.LookupEnv(call:(*Option).EnvKeyWithNamespace(P0))#0, Option.EnvDefaultDelim(P0))"):
 				origins = append(origins, "Split(env, EnvDefaultDelim)")
 				okAll = okAll && c.reqAt(cd, o, envOK)
